@@ -7,3 +7,23 @@
 pub fn vx_vec_reverse<T>(v: &mut Vec<T>)
     ensures final(v)@ == old(v)@.reverse()
 { v.reverse() }
+
+/// R-method-map: `v.retain(f)` => `vx_vec_retain(&mut v, f)`: keeps, in order, exactly the elements on
+/// which the predicate returned true (operational contract, see iter_model.rs)
+#[verifier::external_body]
+pub fn vx_vec_retain<T, F: Fn(&T) -> bool>(v: &mut Vec<T>, f: F)
+    requires forall|i: int| 0 <= i < old(v)@.len() ==> call_requires(f, (&#[trigger] old(v)@[i],))
+    ensures
+        exists|keep: Seq<bool>| keep.len() == old(v)@.len()
+            && (forall|i: int| 0 <= i < keep.len() ==> call_ensures(f, (&#[trigger] old(v)@[i],), keep[i]))
+            && final(v)@ == filter_by(old(v)@, keep),
+{ v.retain(f) }
+
+/// the subsequence of s at the positions where keep is true
+pub open spec fn filter_by<T>(s: Seq<T>, keep: Seq<bool>) -> Seq<T>
+    decreases s.len()
+{
+    if s.len() == 0 || keep.len() != s.len() { Seq::empty() }
+    else if keep.last() { filter_by(s.drop_last(), keep.drop_last()).push(s.last()) }
+    else { filter_by(s.drop_last(), keep.drop_last()) }
+}
